@@ -148,6 +148,9 @@ func fieldVar(v ssa.Value) *types.Var {
 // loadedField: if v is `*(&x.f)` or `x.f`, return the field and the base value.
 func loadedField(v ssa.Value) (*types.Var, ssa.Value) {
 	switch x := v.(type) {
+	case *ssa.ChangeType:
+		// a conversion between types of identical underlying type keeps the value
+		return loadedField(x.X)
 	case *ssa.UnOp:
 		if x.Op == token.MUL {
 			if fa, ok := x.X.(*ssa.FieldAddr); ok {
@@ -162,6 +165,9 @@ func loadedField(v ssa.Value) (*types.Var, ssa.Value) {
 
 // loadedGlobal: if v is a load of a package-level variable, return it.
 func loadedGlobal(v ssa.Value) *ssa.Global {
+	if ct, ok := v.(*ssa.ChangeType); ok {
+		return loadedGlobal(ct.X)
+	}
 	if u, ok := v.(*ssa.UnOp); ok && u.Op == token.MUL {
 		if g, ok := u.X.(*ssa.Global); ok {
 			return g
